@@ -10,6 +10,9 @@ CHECKS = {
     "C01": dict(spec="RequestWait", ref="DESIGN.md §4 C01",
                 text="TLC explores RequestWait exhaustively (1 caller, 3 arrivals of 6 kinds, poll/deadline ties) and every clause holds in the model; the environment schedules of the generation instance plus seeded random schedules are executed against the real send_message under a virtual clock and every recorded trace is validated by TLC against RequestWaitTrace (implementation-shaped spec, then total observer) with all clauses evaluated on the observed behaviour.",
                 note="Trusted: TLC, the virtual-time event loop, the recording write stream; payload/params equality is compared by the driver and reaches TLC as a flag. Bounds: model constants; random schedules up to 12 arrivals on the 10 ms grid."),
+    "C07": dict(spec="ErrorClass", ref="DESIGN.md §4 C07",
+                text="The error-code sets and helper list are extracted from the tree into TLA+ constants; TLC checks disjointness, partition of the named codes, equality with the documented sets and totality/agreement of the classification over all 1602 codes x helpers. Every code of both ranges plus seeded 64-bit codes is then sent as an error response (7 shapes) to real calls of every discovered request helper and to is_retryable_error, and TLC judges each observed outcome (class raised, code and message carried, False from the boolean helpers) against the specification. The ErrNeverNormal clause is also checked on RequestWait and on recorded send_message traces.",
+                note="Trusted: TLC; the documented sets are transcribed from the pinned errors.py; 64-bit codes are abstracted to one class; send_initialize* are judged only for 'no normal return' (they convert version errors by design)."),
     "C14": dict(spec="RequestWait", ref="DESIGN.md §4 C14",
                 text="Same specification as C01 with cancellation tokens, progress callbacks and traffic patterns; deadline, cancellation-promptness, single-cancel-notification and exact-progress clauses are invariants checked by TLC on the model and on every recorded execution (including floods every 10 ms).",
                 note="Trusted: TLC, the virtual clock (anyio deadlines are loop timers). Time is virtual; real-time scheduling jitter is out of scope."),
